@@ -845,6 +845,11 @@ func (p *vARPeer) forward() (string, bool) {
 		if !p.il && m.unordered {
 			continue
 		}
+		// an honest sender names sequence numbers of the stream's CURRENT incarnation only: chunks of an earlier
+		// incarnation lie at or below the reset request's last TSN, which the peer passed before it performed the reset
+		if st := p.streams[m.si]; st != nil && m.inc < st.inc {
+			continue
+		}
 		kk := k{m.si, m.unordered}
 		old, ok := best[kk]
 		if !ok {
